@@ -72,7 +72,7 @@ def _hessianise(M, z):
 
 
 def run(tier):
-    chk = Check("C16", tier, "proof",
+    chk = Check("C16", tier, "other",
                 "Sub-flows are partially evaluated with the polynomial evaluator abstracted as the gradient of an arbitrary "
                 "H; their 12x12 Jacobians must satisfy M^T J M = J (Hessian symmetric), the coupling flow modulo c^2+s^2=1; "
                 "the composition is read off as the sequence of sub-flow calls with their step fractions and each "
